@@ -148,18 +148,14 @@ Fixpoint keys_of (l : list rtree) : option (list bytes) :=
 
 (* every object in the expanded schema has keyed children with pairwise different keys; array
    items have no key; scalars have no children *)
-Fixpoint rtree_ok (fuel : nat) (r : rtree) : bool :=
-  match fuel with
-  | O => false
-  | S f =>
-    match r with
-    | RNode _ tk _ ks =>
-      forallb (rtree_ok f) ks &&
-      match tk with
-      | TObject => match keys_of ks with Some l => nodupb l | None => false end
-      | TArray => forallb (fun c => match rkey c with None => true | Some _ => false end) ks
-      | TOther => match ks with [] => true | _ => false end
-      end
+Fixpoint rtree_ok (r : rtree) : bool :=
+  match r with
+  | RNode _ tk _ ks =>
+    forallb rtree_ok ks &&
+    match tk with
+    | TObject => match keys_of ks with Some l => nodupb l | None => false end
+    | TArray => forallb (fun c => match rkey c with None => true | Some _ => false end) ks
+    | TOther => match ks with [] => true | _ => false end
     end
   end.
 
@@ -185,7 +181,7 @@ Fixpoint tree_wf (fuel : nat) (t : tree) : bool :=
 Definition schema_ok (e : env) (t : tree) : bool :=
   tree_wf (S (tree_size t)) t &&
   match spec_schema e t with
-  | Some r => rtree_ok (spec_fuel e + spec_fuel e) r
+  | Some r => rtree_ok r
   | None => false
   end.
 
@@ -242,6 +238,43 @@ Definition env_root_level (e : env) : bool :=
   forallb (fun x : bytes * option tree => match snd x with Some t => root_level t | None => true end) (e_types e) &&
   forallb (fun x : ukind * tree => root_level (snd x)) (e_uses e).
 
+(* The class of allof_correct_skeleton.  A schema is a SKELETON when no object with an allOf rule
+   lies inside another object with an allOf rule: below an object with a rule everything is
+   plain; above it only objects and arrays without rule.  A project is in the class when every
+   schema is a skeleton and every user type named in some allOf rule (a base) has its own rules
+   at its root only (root_level): the types that are copied from are flat, everything that is
+   only visited — use-site schemas, user types nobody inherits from — may carry rules on nested
+   objects and on array items. *)
+Fixpoint tree_skel (fuel : nat) (t : tree) : bool :=
+  match fuel with
+  | O => false
+  | S f =>
+    match t with
+    | Tree tk ao kids =>
+      match ao with
+      | [] => forallb (fun kc => tree_skel f (snd kc)) kids
+      | _ => forallb (fun kc => tree_plain (S (tree_size (snd kc))) (snd kc)) kids
+      end
+    end
+  end.
+
+(* every type name written in an allOf rule anywhere in t *)
+Fixpoint tree_names (t : tree) : list bytes :=
+  match t with
+  | Tree _ ao kids =>
+    ao ++ (fix go (ks : list (option bytes * tree)) : list bytes :=
+             match ks with [] => [] | (_, c) :: r => tree_names c ++ go r end) kids
+  end.
+
+Definition env_names (e : env) : list bytes :=
+  flat_map (fun x : bytes * option tree => match snd x with Some t => tree_names t | None => [] end) (e_types e)
+  ++ flat_map (fun x : ukind * tree => tree_names (snd x)) (e_uses e).
+
+Definition env_skeleton (e : env) : bool :=
+  forallb (fun x : bytes * option tree => match snd x with Some t => tree_skel (S (tree_size t)) t | None => true end) (e_types e) &&
+  forallb (fun x : ukind * tree => tree_skel (S (tree_size (snd x))) (snd x)) (e_uses e) &&
+  forallb (fun b => match lookup (e_types e) b with Some (Some t) => root_level t | _ => true end) (env_names e).
+
 (* no object with an allOf rule at or below an array *)
 Fixpoint no_allof_under_array (fuel : nat) (under : bool) (t : tree) : bool :=
   match fuel with
@@ -253,8 +286,6 @@ Fixpoint no_allof_under_array (fuel : nat) (under : bool) (t : tree) : bool :=
       forallb (fun kc => no_allof_under_array f (under || tok_eqb tk TArray) (snd kc)) kids
     end
   end.
-
-Definition is_rpc (k : ukind) : bool := match k with URpcParams | URpcResult => true | _ => false end.
 
 Fixpoint has_allof (fuel : nat) (t : tree) : bool :=
   match fuel with
